@@ -70,6 +70,7 @@ type Exec struct {
 	siteOcc   map[string]int
 	siteIndex map[ssa.Instruction]siteInfo
 	heldHavocked bool
+	topFrame     *Frame
 	siteQualified map[ssa.Instruction]map[string]int
 	sitesHit  map[string]bool
 }
@@ -746,6 +747,9 @@ func (ex *Exec) runFunc(fn *ssa.Function, args []Value, bind []Value, st *State,
 	_ = deferBase
 	saved := ex.curFrame
 	ex.curFrame = fr
+	if top {
+		ex.topFrame = fr
+	}
 	defer func() { ex.curFrame = saved }()
 
 	for _, b := range order {
